@@ -225,9 +225,10 @@ Qed.
     - it holds no identity if it ends the cycle unplaced, and holds one (when it has an identity group) if it ends placed,
     - and if it ends on a server other than the one it started on, that server is Up and satisfies the label,
       traits and lifetime constraints of the instance, all measured on the state before the cycle. *)
-Theorem schedule_final c ch : Acct c -> Ident c -> parts_wf c ->
+Theorem schedule_final_mid c ch : Acct c -> Ident c -> parts_wf c ->
   forall x a, In x (part_apps (c_parts c)) -> app_of c x = Some a -> id_rec a ->
-  exists a', app_of (fst (fst (schedule c ch))) x = Some a' /\ after_cycle c a a'.
+  exists a0 a', app_of (pre_phases c) x = Some a0 /\ touched a a0 /\
+                app_of (fst (fst (schedule c ch))) x = Some a' /\ after_cycle (pre_phases c) a0 a'.
 Proof.
   intros HA HI [Hlab Hnd] x a Hin Ha Hid.
   destruct (pre_phases_spec c HA HI) as (Hami & Hat & Hps & Hbl).
@@ -235,10 +236,18 @@ Proof.
   pose proof (psteps_static _ _ Hps) as Hsk. assert (HP : c_parts (pre_phases c) = c_parts c) by (destruct Hsk as (_ & E & _); exact E).
   unfold schedule. fold (sched_F ch). rewrite HP.
   pose proof (sched_fold_spec ch (c_parts c) (c_parts c) (pre_phases c) [] Hami HP (aget_nodup _ Hlab) Hnd x a0 Ha0) as [_ Hfold].
-  destruct Ht as (Hst & Hrn & Hsv).
-  destruct (Hfold Hin) as (a' & Ha' & Hac); [eapply id_rec_touched; [split; [exact Hst|split; [exact Hrn|exact Hsv]]|exact Hid]|eapply Hbl; exact Ha0|].
+  destruct (Hfold Hin) as (a' & Ha' & Hac); [eapply id_rec_touched; [exact Ht|exact Hid]|eapply Hbl; exact Ha0|].
   destruct (fold_left (sched_F ch) (c_parts c) (pre_phases c, [])) as [c1 qs]. cbn [fst] in *.
-  exists a'. split; [exact Ha'|]. eapply after_cycle_back; [exact Hsk|exact Hst| |exact Hac].
+  exists a0, a'. auto.
+Qed.
+
+Theorem schedule_final c ch : Acct c -> Ident c -> parts_wf c ->
+  forall x a, In x (part_apps (c_parts c)) -> app_of c x = Some a -> id_rec a ->
+  exists a', app_of (fst (fst (schedule c ch))) x = Some a' /\ after_cycle c a a'.
+Proof.
+  intros HA HI Hwf x a Hin Ha Hid.
+  destruct (schedule_final_mid c ch HA HI Hwf x a Hin Ha Hid) as (a0 & a' & Ha0 & (Hst & Hrn & Hsv) & Ha' & Hac).
+  exists a'. split; [exact Ha'|]. eapply after_cycle_back; [apply psteps_static, pre_phases_ps|exact Hst| |exact Hac].
   destruct Hsv as [[E _]|[E _]]; [left|right]; exact E.
 Qed.
 
